@@ -4,7 +4,7 @@ import CV.Proofs.QuantNoUb
 /-!
 # C20 (component `quant`): no unsafe precondition of the float-derived models is reachable
 
-`quantize.rs` no longer contains an `unsafe` block: after D25 (symbol-table iterator) and D26
+`quantize.rs` no longer contains an `unsafe` block: after D25 (symbol-table iterator) and D27
 (`quantile_function`) every conversion to `NonZero` is the checked `into_nonzero().expect(..)`.
 A `Distribution` is a *safe* trait and may return anything, so the statements come in two forms:
 
@@ -13,7 +13,7 @@ A `Distribution` is a *safe* trait and may return anything, so the statements co
   `Fault.ub` (`C20_leaky_no_ub_for_any_distribution`).  What a broken CDF *can* reach are the
   documented **panics** ("Invalid underlying continuous probability distribution.", or an
   arithmetic-overflow panic in a checked build) — nowhere UB.  The pre-repair code reached
-  `NonZero::new_unchecked(0)` from safe code in both places (D25, D26; reproducers in
+  `NonZero::new_unchecked(0)` from safe code in both places (D25, D27; reproducers in
   `corpus/quant/repro.txt`).
 * **for valid distributions** (`GOk`) and for the categorical models under TB-F1/TB-F2: *no*
   `Fault` of any kind — no overflow of `symbol ± step` or of a probability, no failing
@@ -43,7 +43,7 @@ theorem C20_leaky_no_ub_for_any_distribution (m : LQ) (gl gr : Ext) :
   · have := noUb_dec (m := m) (gl := gl) (gr := gr) fuel hint q _ h; simp [SErr.isUb] at this
   · have := noUb_table (m := m) (gl := gl) fuel s left _ h; simp [SErr.isUb] at this
 
-/-- the D26 shape: a CDF that returns `2.0` at `min + 0.5` (`u8` symbols, `u8` probabilities,
+/-- the D27 shape: a CDF that returns `2.0` at `min + 0.5` (`u8` symbols, `u8` probabilities,
     `P = 8`) makes `quantile_function` panic — it used to reach `NonZero::new_unchecked(0)` -/
 example : (⟨⟨8, false⟩, 8, 8, 0, 3, 252⟩ : LQ).dec (fun _ => some 255) (fun _ => some 255) 40 0 5
     = .error (.fault (.panic "quant.dec.expect")) := by rfl
